@@ -29,6 +29,13 @@ func sessionCorrespondence(r *Result, d *drv.Driver, seed int64, batches, perBat
 			cfg, arrs := genScript(rng, common, saConfigured, o)
 			runs = append(runs, &sessionRun{cfg: cfg, arrs: arrs})
 		}
+		{
+			var ls []string
+			for _, run := range runs {
+				ls = append(ls, scriptLine(run.cfg, run.arrs))
+			}
+			crumb(fmt.Sprintf("sessions served concurrently by one Server (pipelined=%v):\n%s", pipelined, strings.Join(ls, "\n")))
+		}
 		if err := runSessions(runs, pipelined, T, rng); err != nil {
 			r.find(Finding{Kind: "violation", What: "server did not finish its sessions / shut down cleanly", Input: scriptLine(runs[0].cfg, runs[0].arrs), Actual: err.Error()})
 			continue
@@ -400,9 +407,10 @@ func init() {
 		sessionCorrespondence(r, d, seed*31+7, b, p, scriptOpts{maxArr: 8, maxItems: 5}, 150*time.Millisecond, oracleC07)
 	}
 	props["C08"] = func(r *Result, d *drv.Driver, tier string, seed int64, replay string) {
-		r.Rule = sessRule("C08 oracle: each registered item invoked exactly once in order with its payload; each item's status/reason/message/payload is its own handler's outcome; the process survives (all runs are in-process).")
+		r.Rule = sessRule("C08 oracle: each registered item invoked exactly once in order with its payload; each item's status/reason/message/payload is its own handler's outcome; the process survives (all runs are in-process); plus batches in which a handler panics with values hostile to rendering (panicking Error/String methods, typed nil errors).")
 		b, p := sizes(tier)
 		sessionCorrespondence(r, d, seed*31+8, b, p, scriptOpts{maxArr: 6, maxItems: 5}, 150*time.Millisecond, oracleC08)
+		c08EvilPanics(r)
 	}
 	props["C09"] = func(r *Result, d *drv.Driver, tier string, seed int64, replay string) {
 		r.Rule = sessRule("C09 oracle: no call/response after a failed session auth; no call for rejected or uncheckable credentials; every call sees its own connection's session id/auth and its own request's auth value.")
@@ -421,9 +429,10 @@ func init() {
 		sessionCorrespondence(r, d, seed*31+10, b, p+2, scriptOpts{maxArr: 5, maxItems: 3, allowStall: true}, 60*time.Millisecond, oracleC10)
 	}
 	props["C15"] = func(r *Result, d *drv.Driver, tier string, seed int64, replay string) {
-		r.Rule = sessRule("C15 oracle: with ReadTimeout every wait for a request is immediately preceded by a fresh read deadline, with WriteTimeout every response by a fresh write deadline, with zero timeouts no deadline is ever set; a peer stalling inside a request is disconnected when the real deadline (60 ms) expires; plus the same rules observed on real TLS connections (handshake included) for every zero/non-zero combination of the two timeouts.")
+		r.Rule = sessRule("C15 oracle: with ReadTimeout every wait for a request is immediately preceded by a fresh read deadline, with WriteTimeout every response by a fresh write deadline, with zero timeouts no deadline is ever set; a peer stalling inside a request is disconnected when the real deadline (60 ms) expires; plus the same rules observed on real TLS connections (handshake included) for every zero/non-zero combination of the two timeouts, on the server side and on the Client side.")
 		b, p := sizes(tier)
 		sessionCorrespondence(r, d, seed*31+15, b, p, scriptOpts{maxArr: 8, maxItems: 2, allowStall: true}, 60*time.Millisecond, oracleC15)
 		c15TLS(r)
+		c15Client(r)
 	}
 }
